@@ -796,6 +796,26 @@ def gen_case(rng, kind, idx=None):
         headers = [HEADERS[h]] * len(blocks)
         probes, world = build_world_and_probes(rng, blocks, headers, unsized=True, nprobes=14, impl_rate=0.9)
         return Case(kind, 'K', '', blocks, probes, world)
+    elif kind == 'unsized_free':
+        # a parameter that is NOT dispatched on (it only occurs inside a Box / behind a reference of
+        # the header) is relaxed by some blocks of the family and not by others: which ones, by
+        # position, is planned, so that "only a later block relaxes" occurs
+        h = pk.choice(['pairbox', 'refpair'])
+        self_fmt, used = HEADERS[h]
+        tr = pk.choice(['D', 'D2'])
+        plan = pk.choice(['not_first', 'first_only', 'all', 'last_only'])
+        groups = rng.sample(GROUPS, pk.choice([2, 3]))
+        blocks = []
+        for i, g in enumerate(groups):
+            slots = mk_slots(rng, used)
+            order = list(slots); rng.shuffle(order)
+            order = [x for x in order if x[0] == 'L'] + [x for x in order if x[0] != 'L']
+            on = {'not_first': i > 0, 'first_only': i == 0, 'all': True, 'last_only': i == len(groups) - 1}[plan]
+            blocks.append(Block({x: slots[x] for x in order}, None, self_fmt, [('{T0}', tr, {'G': g}, rng.choice(['inline', 'where']))], 'b%d' % i,
+                                relaxed=({'T1': rng.choice(['inline', 'where'])} if on else {})))
+        headers = [HEADERS[h]] * len(blocks)
+        probes, world = build_world_and_probes(rng, blocks, headers, unsized=True, nprobes=14, impl_rate=0.9)
+        return Case(kind, 'K', '', blocks, probes, world)
     elif kind == 'split':
         # one bound written in two pieces in every block: the distinguishing binding and another one
         h = rng.choice(['T', 'pair', 'vec', 'opt', 'box'])
